@@ -150,7 +150,13 @@ def run(ctx):
                 chars.append(("'%s'" % c, ord(c)))
             stm.append('cc = %s;' % chars[-1][0])
         asm_body = rand_body(rng, 5, tricky=False)
-        lines.append('void main() { f(%s); %s asm("%s"); }' % (', '.join('"%s"' % b for b, _ in ab), ' '.join(stm), asm_body[0]))
+        if len(ab) == 2 and rng.random() < 0.5:
+            # the two literals in two nested parts of ONE expression (two calls, or a parenthesised literal)
+            lines.append('char h(char *p) { return p[Y]; }')
+            call = rng.choice(['cc = h("%s") + h("%s");', 'cc = h(("%s")) + h("%s");', 'cc = h("%s"), cc = h(("%s"));']) % (ab[0][0], ab[1][0])
+            lines.append('void main() { %s %s asm("%s"); }' % (call, ' '.join(stm), asm_body[0]))
+        else:
+            lines.append('void main() { f(%s); %s asm("%s"); }' % (', '.join('"%s"' % b for b, _ in ab), ' '.join(stm), asm_body[0]))
         exp['@args'] = [o + [0] for _, o in ab]
         pieces['@args'] = [[unsplice(b)] for b, _ in ab]
         exp['@chars'] = [v for _, v in chars]
